@@ -5,7 +5,7 @@ import sym
 
 CONFIGS_QUICK = ["F_all", "F_def"]  # every configuration whose cfg-gated code the property depends on
 CONFIGS_THOROUGH = ["F_all", "F_def"]
-TECHNIQUE = 'static analysis: effect pairing (scope push/pop) across the NsReader API on MIR paths, decision tables of the resolver, exact level steps, both arms of pop drop bindings, push looks at every attribute, reserved bindings' level, compile-fail witnesses (no DerefMut)'
+TECHNIQUE = 'static analysis: effect pairing (scope push/pop) across the NsReader API on MIR paths, decision tables of the resolver, exact level steps, both arms of pop drop bindings, push looks at every attribute, level of the reserved bindings, compile-fail witnesses (no DerefMut)'
 EXPLANATION = (
     "Scope pairing across the NsReader API: every NsReader method that lets the inner reader consume the End tag of an "
     "already-pushed element (read_to_end, read_to_end_into, read_text, read_to_end_into_async) must pop the namespace "
